@@ -404,6 +404,34 @@ static std::string runCli(const vj::Val& st) {
   return o;
 }
 
+// data races reported by ThreadSanitizer so far (when built with it): the functions on top of the two stacks
+static std::string tsanRaces() {
+      std::string races = "[";
+  if (const char* lp = getenv("VDRIVE_TSAN_LOG")) {
+    std::string log = slurp(std::string(lp) + "." + std::to_string((long)getpid()));
+    size_t p0 = 0; bool first = true;
+    while ((p0 = log.find("WARNING: ThreadSanitizer: data race", p0)) != std::string::npos) {
+      size_t endw = log.find("SUMMARY: ThreadSanitizer", p0);
+      /* the two accesses: the first frame of the first two stacks, as source file:line */
+      size_t q = p0; int got = 0;
+      while (got < 2 && (q = log.find("#0 ", q)) != std::string::npos && (endw == std::string::npos || q < endw)) {
+        size_t e = log.find('\n', q);
+        std::string line = log.substr(q, e - q);
+        size_t r = line.find("/repo/");
+        std::string loc = "?";
+        if (r != std::string::npos) { size_t sp = line.find(' ', r); loc = line.substr(r + 6, sp - r - 6); size_t c2 = loc.rfind(':'); if (c2 != std::string::npos) loc = loc.substr(0, c2); }
+        else { size_t sp = line.find(' ', 3); loc = line.substr(3, sp == std::string::npos ? 40 : sp - 3); }
+        if (!first) races += ','; first = false;
+        races += vj::q(loc);
+        ++got; q = e;
+      }
+      p0 += 10;
+    }
+  }
+  races += "]";
+  return races;
+}
+
 // a private scratch directory of this worker process (removed at the end of every scenario)
 static std::string g_tmpdir;
 static std::string tmpDir() {
@@ -825,34 +853,58 @@ static std::string doStep(const vj::Val& st) {
         }
       }
       per += "]";
-      /* data races reported by ThreadSanitizer so far (when built with it): the functions on top of the two stacks */
-      std::string races = "[";
-      if (const char* lp = getenv("VDRIVE_TSAN_LOG")) {
-        std::string log = slurp(std::string(lp) + "." + std::to_string((long)getpid()));
-        size_t p0 = 0; bool first = true;
-        while ((p0 = log.find("WARNING: ThreadSanitizer: data race", p0)) != std::string::npos) {
-          size_t endw = log.find("SUMMARY: ThreadSanitizer", p0);
-          /* the two accesses: the first frame of the first two stacks, as source file:line */
-          size_t q = p0; int got = 0;
-          while (got < 2 && (q = log.find("#0 ", q)) != std::string::npos && (endw == std::string::npos || q < endw)) {
-            size_t e = log.find('\n', q);
-            std::string line = log.substr(q, e - q);
-            size_t r = line.find("/repo/");
-            std::string loc = "?";
-            if (r != std::string::npos) { size_t sp = line.find(' ', r); loc = line.substr(r + 6, sp - r - 6); size_t c2 = loc.rfind(':'); if (c2 != std::string::npos) loc = loc.substr(0, c2); }
-            else { size_t sp = line.find(' ', 3); loc = line.substr(3, sp == std::string::npos ? 40 : sp - 3); }
-            if (!first) races += ','; first = false;
-            races += vj::q(loc);
-            ++got; q = e;
-          }
-          p0 += 10;
-        }
-      }
-      races += "]";
+      std::string races = tsanRaces();
       o += ",\"oc\":" + vj::q(oc) + ",\"per\":" + per + ",\"races\":" + races;
     }
     else if (op == "cli") {
       o += ",\"oc\":\"ok\"," + runCli(st);
+    }
+    else if (op == "capithreads") {
+      /* C API only: n executables "raise ERR<k>;" compiled in one context, each run (bloc_execute2) reps times by its own clone on
+         its own thread; after every failed run the thread reads bloc_errno / bloc_strerror: it must read its own error */
+      int n = (int)st.num("n", 2), reps = (int)st.num("reps", 1);
+      int fd0 = memfd_create("ct", 0);
+      bloc_context* c0 = bloc_create_context(fd0, fd0);
+      struct T { bloc_context* cx; bloc_executable* ex; int fd; int k; int reps; int bad_no; int bad_msg; int okruns; std::string first; };
+      std::vector<T> ts(n);
+      std::string oc = "ok";
+      for (int k = 0; k < n; ++k) {
+        std::string text = "raise ERR" + std::to_string(k) + ";";
+        ts[k].ex = bloc_parse_executable(c0, text.c_str(), nullptr);
+        if (!ts[k].ex) oc = "parse_error";
+      }
+      for (int k = 0; k < n; ++k) { ts[k].fd = memfd_create("ct", 0); ts[k].cx = bloc_clone_context2(c0, ts[k].fd, ts[k].fd); ts[k].k = k; ts[k].reps = reps; ts[k].bad_no = ts[k].bad_msg = ts[k].okruns = 0; }
+      static pthread_barrier_t bar2;
+      pthread_barrier_init(&bar2, nullptr, n);
+      auto fn = [](void* p) -> void* {
+        T* t = (T*)p;
+        std::string want = "ERR" + std::to_string(t->k);
+        pthread_barrier_wait(&bar2);
+        for (int r = 0; r < t->reps; ++r) {
+          if (bloc_execute2(t->cx, t->ex)) { ++t->okruns; continue; }
+          int no = bloc_errno(); const char* m = bloc_strerror();
+          std::string msg = m ? m : "<null>";
+          if (no != 1) ++t->bad_no;
+          if (msg.find(want) == std::string::npos) { ++t->bad_msg; if (t->first.empty()) t->first = msg; }
+        }
+        return nullptr;
+      };
+      std::vector<pthread_t> th(n);
+      if (oc == "ok") {
+        for (int k = 0; k < n; ++k) pthread_create(&th[k], nullptr, fn, &ts[k]);
+        for (int k = 0; k < n; ++k) pthread_join(th[k], nullptr);
+      }
+      pthread_barrier_destroy(&bar2);
+      std::string per = "[";
+      for (int k = 0; k < n; ++k) {
+        if (k) per += ',';
+        per += "{\"bad_no\":" + std::to_string(ts[k].bad_no) + ",\"bad_msg\":" + std::to_string(ts[k].bad_msg) + ",\"okruns\":" + std::to_string(ts[k].okruns) + ",\"first\":" + vj::q(ts[k].first) + "}";
+        bloc_free_context(ts[k].cx); close(ts[k].fd);
+      }
+      per += "]";
+      for (int k = 0; k < n; ++k) if (ts[k].ex) bloc_free_executable(ts[k].ex);
+      bloc_free_context(c0); close(fd0);
+      o += ",\"oc\":" + vj::q(oc) + ",\"per\":" + per + ",\"races\":" + tsanRaces();
     }
     else if (op == "unban") {
       PluginManager::instance().unbanPlugin(st.str("m"));
